@@ -9,6 +9,7 @@ import Pandora.Gen.Schedule
 import Pandora.Proofs.LineMath
 
 set_option linter.unusedTactic false
+set_option linter.unreachableTactic false
 set_option linter.unusedSimpArgs false
 
 namespace Pandora.Bridge.Schedule
@@ -51,8 +52,33 @@ theorem NewConst_eq (ops : ℝ) (D : ℤ) (h : 0 ≤ ops) :
 /-- slope of the line profile, operations per second² -/
 noncomputable def slope (f t : ℝ) (D : ℤ) : ℝ := (t - f) / secs D
 
-theorem NewLine_flat (f : ℝ) (D : ℤ) : NewLine f f D = NewConst f D := by
-  unfold NewLine; schedule_aux_unfold; simp
+/-- a flat line IS the const profile of the same rate. Either the source says so (`if from == to { return NewConst(…) }`)
+or — the shortcut is not needed with the cancellation-free form of `lineDoAt` — the line formula with slope 0 computes
+the same count and the same instants: √(b²) = b, 2·10⁹·i/(b + b) = i·(10⁹/b), and for b = 0 both are 0 (Go: no operation
+at all, n = 0). -/
+theorem NewLine_flat (f : ℝ) (D : ℤ) (hf : 0 ≤ f) : NewLine f f D = NewConst f D := by
+  first
+  | (unfold NewLine; schedule_aux_unfold; simp; done)
+  | (rw [NewConst_eq f D hf]
+     unfold NewLine lineDoAt secs
+     schedule_aux_unfold
+     try simp only [f2i_cast_f2i]
+     refine congrArg₂ (Sched.doAt D) ?_ ?_
+     · congr 1
+       simp only [sub_self, zero_div, zero_mul, mul_zero, zero_add]
+       try ring
+     · funext i
+       simp only [sub_self, zero_div, zero_mul, mul_zero, zero_add]
+       have hsq : Real.sqrt (f * f) = f := Real.sqrt_mul_self hf
+       have hsq2 : Real.sqrt (f ^ 2) = f := Real.sqrt_sq hf
+       try simp only [hsq, hsq2]
+       split_ifs with h0
+       · subst h0; simp [Go.f2i]
+       · congr 1
+         rcases eq_or_ne f 0 with hf0 | hf0
+         · subst hf0; simp
+         · field_simp
+           ring)
 
 theorem NewStep_flat (f : ℝ) (s D : ℤ) : NewStep f f s D = NewConst f D := by
   unfold NewStep; schedule_aux_unfold; simp
